@@ -27,6 +27,8 @@ STRATA = [
     ("antiparallel", 6000, 80000),
     ("dense", 3000, 40000),
     ("big", 300, 4000),
+    ("matching-deg2", 4000, 50000),
+    ("twoway-grid", 3000, 40000),
 ]
 REQUIRED_EVENTS = {"any": ["mf.check.capacity", "mf.check.conservation", "mf.check.objective",
                            "mf.check.residual-bfs", "mf.oracle.value", "mf.cover.reverse-arc-needed"]}
@@ -267,6 +269,33 @@ def gen(stratum, rng, tier):
             u, v = rng.sample(range(n), 2)
             arcs.append((u, v, rng.choice([1, 1, 2, 3, 5, 9])))
         return _finish(rng, n, arcs, s, t)
+    if stratum == "matching-deg2":
+        # unit-capacity bipartite matchings where every left node has (about) two candidate partners: long
+        # alternating paths, arcs that are filled, emptied again by a later path and needed a third time
+        k = rng.randint(4, 9)
+        s, t = 0, 1
+        L = list(range(2, 2 + k))
+        R = list(range(2 + k, 2 + 2 * k))
+        arcs = [(s, x, 1) for x in L] + [(y, t, 1) for y in R]
+        for i, x in enumerate(L):
+            for y in {R[i], R[(i + rng.choice([1, 1, 2])) % k]} | ({rng.choice(R)} if rng.random() < 0.2 else set()):
+                arcs.append((x, y, 1))
+        return _finish(rng, 2 + 2 * k, arcs, s, t, extra_keys=False)
+    if stratum == "twoway-grid":
+        # grids whose neighbouring cells are joined in both directions with small capacities: staggered path
+        # lengths under shortest-path augmentation, flow pushed over an arc and later cancelled from the other side
+        h, w = rng.randint(3, 5), rng.randint(3, 5)
+        idx = lambda r, c: r * w + c
+        arcs = []
+        for r in range(h):
+            for c in range(w):
+                for dr, dc in ((0, 1), (1, 0)):
+                    r2, c2 = r + dr, c + dc
+                    if r2 < h and c2 < w and rng.random() < 0.9:
+                        arcs.append((idx(r, c), idx(r2, c2), rng.randint(1, 3)))
+                        arcs.append((idx(r2, c2), idx(r, c), rng.randint(1, 3)))
+        s, t = rng.sample(range(h * w), 2)
+        return _finish(rng, h * w, arcs, s, t, extra_keys=False)
     raise ValueError(stratum)
 
 
